@@ -1,4 +1,5 @@
 import Bclv.Model.Args
+import Bclv.Props.C09
 /-!
 # C18 — the command-line tool mirrors the library (the argument parser)
 
@@ -11,6 +12,11 @@ by the `argsdiff` stream, and end to end by the `cli` stream):
   the outcome — parsed record or usage error — is the same for every permutation:
   flags may come in any order, before or after the file;
 * `exit_code`: 2 exactly after a usage error, 0 for help, otherwise 1 iff the run failed.
+
+* `bdump_then_bload`: the file `--bdump` writes — the writes `Dump` hands to the file through its
+  4096-byte buffered writer — read back by `--bload` through the buffered reader, in whatever
+  non-empty pieces the file system delivers it, is the same program; executing and disassembling
+  are functions of the program, so output, trace, result and error of the two runs coincide.
 
 Process exit, stream separation and the file system are not modelled: that part of
 the property rests on the end-to-end `cli` stream.
@@ -282,5 +288,24 @@ example : parseArgs [a "a", a "b"] = .usage "too many file args" := by decide
 example : parseArgs [] = .ok { file := a "-" } := by decide
 example : parseArgs [a "--", a "-d"] = .ok { file := a "-d" } := by decide
 example : parseArgs [a "-x"] = .usage "unknown flag" := by decide
+
+/-! ## `--bdump` then `--bload` -/
+
+/-- The bytecode file written by `--bdump` and read back by `--bload` is the same program, and runs
+the same: for every program the parser can build, every way the written file is delivered to the
+reader, every trace setting and step budget. -/
+theorem bdump_then_bload (p : Bclv.Prog) (h : p.WF) :
+    ∃ file, Bclv.Buf.dumpW p = some file ∧
+      ∀ chunks : List Bclv.Bytes, (∀ c ∈ chunks, c ≠ []) → chunks.flatten = file.flatten →
+        Bclv.Buf.loadR chunks = .ok p
+        ∧ ∀ q, Bclv.Buf.loadR chunks = .ok q → ∀ trace fuel,
+            Bclv.execute q trace fuel = Bclv.execute p trace fuel ∧ Bclv.disasm q = Bclv.disasm p := by
+  obtain ⟨w, e, hcat, _⟩ := Bclv.C09.dump_through_writer p
+  refine ⟨w, e, fun chunks hc hf => ?_⟩
+  have hl := Bclv.C09.load_dump_chunked p h chunks hc (by rw [hf, hcat])
+  refine ⟨hl, fun q hq trace fuel => ?_⟩
+  rw [hl] at hq
+  cases hq
+  exact ⟨rfl, rfl⟩
 
 end Bclv.C18
